@@ -26,6 +26,16 @@ inductive Verdict
   | incomplete | invalid (msg : Bool) | valid (msg : Bool) | error | panic
 deriving DecidableEq, Repr
 
+/-- A history back end whose indices may have holes (`SQLiteHistory`: the index of an entry is its
+    `rowid - 1`; `INSERT OR REPLACE` under the unique index and `set_max_len` delete rows, row ids are
+    never reused).  `idx` is the index of each entry of `EdCfg.hist` (same length, strictly
+    increasing); `len` is what `History::len()` answers (the largest row id seen, which is NOT the
+    number of entries). -/
+structure RowStore where
+  idx : List Nat
+  len : Nat
+deriving Repr, DecidableEq
+
 /-- configuration and application-supplied helpers (functions of the text) -/
 structure EdCfg where
   vi : Bool
@@ -48,7 +58,13 @@ structure EdCfg where
   /-- `highlight_char` of the installed highlighter (only its effect on `s.highlight_char` matters here) -/
   highlightChar : Text → Nat → Bool := fun _ _ => false
   binds : List (List KeyEvent × Cmd) := []
+  /-- the stored history entries, oldest first -/
   hist : List Text := []
+  /-- `none`: the index of an entry is its position in `hist` (memory / file history);
+      `some r`: the indices are `r.idx` (SQLite history).  Recall (`edit_history_next`,
+      `edit_history`) goes through `histLen` / `histGetDir`; the searches (`memHist`) are modelled
+      for `none` only. -/
+  histRows : Option RowStore := none
 
 structure InputState where
   inputMode : InputMode := .insert
@@ -903,6 +919,26 @@ def grouped (op : LM Bool) : EM Unit := do
 
 def histGet (i : Nat) : Option Text := cfg.hist[i]?
 
+/-- `History::len()` -/
+def histLen : Nat :=
+  match cfg.histRows with
+  | none => cfg.hist.length
+  | some r => r.len
+
+/-- `History::get(index, dir)`: `(idx, entry)` of the answer.  Memory / file history ignore the
+    direction; `SQLiteHistory::get` answers `None` when `len() == 0`, else the nearest row at or
+    after (`Forward`: `rowid >= ?1 ORDER BY rowid ASC LIMIT 1`) / at or before (`Reverse`:
+    `rowid <= ?1 ORDER BY rowid DESC LIMIT 1`) the index. -/
+def histGetDir (i : Nat) (d : Dir) : Option (Nat × Text) :=
+  match cfg.histRows with
+  | none => (cfg.hist[i]?).map (fun e => (i, e))
+  | some r =>
+    if r.len == 0 then none
+    else
+      match d with
+      | .forward => (r.idx.zip cfg.hist).find? (fun p => i ≤ p.1)
+      | .reverse => ((r.idx.zip cfg.hist).filter (fun p => p.1 ≤ i)).getLast?
+
 def setHistIdx (i : Nat) : EM Unit := modify (fun s => { s with histIdx := i })
 def getHistIdx : EM Nat := fun s => .ok (s.histIdx, s)
 
@@ -914,7 +950,7 @@ def showEntry (buf : Text) (pos : Nat) : EM Unit := do
 
 /-- `edit_history_next` -/
 def editHistoryNext (prev : Bool) : EM Unit := do
-  let len := cfg.hist.length
+  let len := histLen cfg
   if len == 0 then return ()
   let hi ← getHistIdx
   if hi == len then
@@ -924,9 +960,9 @@ def editHistoryNext (prev : Bool) : EM Unit := do
     if prev then pure (hi - 1)
     else do setHistIdx (hi + 1); pure (hi + 1)
   if idx < len then
-    match histGet cfg idx with
-    | some buf => do
-      setHistIdx idx
+    match histGetDir cfg idx (if prev then .reverse else .forward) with
+    | some (j, buf) => do
+      setHistIdx j
       showEntry S U buf (blen buf)
     | none => return ()
   else restore S U
@@ -934,17 +970,20 @@ def editHistoryNext (prev : Bool) : EM Unit := do
 
 /-- `edit_history` (first / last) -/
 def editHistory (first : Bool) : EM Unit := do
-  let len := cfg.hist.length
+  let len := histLen cfg
   if len == 0 then return ()
   let hi ← getHistIdx
   if hi == len then
     if first then backup S U else return ()
   else if hi == 0 && first then return ()
   if first then
-    match histGet cfg 0 with
-    | some buf => do
-      setHistIdx 0
-      showEntry S U buf (blen buf)
+    match histGetDir cfg 0 .forward with
+    | some (j, buf) =>
+      -- already on the oldest entry (whose index is not 0 when older rows are gone)
+      if j == hi then return ()
+      else do
+        setHistIdx j
+        showEntry S U buf (blen buf)
     | none => return ()
   else do
     setHistIdx len
@@ -1311,7 +1350,7 @@ def mainLoop : Nat → EM Unit
 def initEd (ring : KillRing) (input : Input) : Ed :=
   { line := { buf := [], pos := 0, cap := 4096, canGrow := true },
     saved := { buf := [], pos := 0, cap := 4096, canGrow := true },
-    changes := Changeset.new, ring := ring.reset, histIdx := cfg.hist.length,
+    changes := Changeset.new, ring := ring.reset, histIdx := histLen cfg,
     inp := {}, hint := none, highlightChar := false, defaultPrompt := true,
     input, obs := [], validatorCalls := [] }
 
